@@ -142,6 +142,33 @@ BUILT["C47"] = ("E2", "exploration", "deterministic simulation: real relay::Beha
 BUILT["C48"] = ("E2", "exploration", "seeded timestamped request sequences against the real per-peer and per-IP limiter (built through relay::Config); sliding-window token-bucket oracle over every pair of accepted requests",
   "limit 1..5, intervals 1 ms..1 min, 3 peers x 3 IPs, steps at 0, interval fractions/multiples and idle gaps; window bound, idle-acceptance, per-IP identity",
   "the limiter takes the timestamp as an argument: the clock is the only nondeterminism and it is drawn by the simulator", "5/C48")
+BUILT["C37"] = ("E3", "exploration", "deterministic simulation over the virtual clock: the real KBucketsTable (cfg facade) under seeded insert/update/remove/lookup/time sequences; reference model following the table's answers; structural invariants and pending-entry rules after every step",
+  "bucket sizes 1..3, pending timeouts 1..60 s, 12..40 hashed peer ids; capacity, uniqueness, bucket index, local key, status/LRU ordering, content equality; applied pending entries: timeout elapsed, victim = least recently updated disconnected entry",
+  "kad facade wrappers (cfg(libp2p_verif)) expose the crate-private table", "5/C37")
+BUILT["C39"] = ("E3", "exploration", "deterministic simulation: the real closest / disjoint / fixed peer iterators driven by a simulated query pool over seeded peer graphs with seeded response orders, failures, silence and late answers on the virtual clock",
+  "8..40 peers, parallelism 1..4, num_results 1..6: in-flight bounds, termination within a step budget once every request is resolved or timed out, results = responders only, sorted, bounded; on natural termination no learned closer peer uncontacted or waiting (plain iterator)",
+  "the 'at most num_results' clause is judged for the plain iterator; the disjoint iterator documents that it returns the union of its paths' results (bound parallelism*num_results)", "5/C39")
+BUILT["C41"] = ("E3", "exploration", "seeded operation sequences against the real MemoryStore compared with a reference map after every operation",
+  "limits 1..4 records, 4..12 value bytes, 1..3 providers per key, 1..3 provided keys; put/get/remove/add_provider/remove_provider; provided() == local provider records",
+  "no clock, schedule or fault in this store: operation-sequence (history) comparison only", "5/C41")
+BUILT["C42"] = ("E2", "exploration", "deterministic simulation: real kad::Behaviour (server mode, MemoryStore) in a real Swarm, scripted peers sending PUT_VALUE/GET_VALUE frames, virtual time steps leaving sub-second lifetimes; the record store is read after every request",
+  "record_ttl none or 3..60 s x sender ttl none/1..3/30/3600: stored expiry <= min of both, no expiry only if neither set; GET_VALUE answers for expiring records carry ttl > 0",
+  E2P_NOTE, "5/C42")
+BUILT["C43"] = ("E2", "exploration", "same simulation as C42 with ADD_PROVIDER and PUT_VALUE frames carrying arbitrary provider / publisher ids",
+  "a provider appears in the store only if it is the sender and not the local node; PUT_VALUE with the local node as publisher leaves the record untouched",
+  E2P_NOTE, "5/C43")
+BUILT["C45"] = ("E2", "exploration", "deterministic simulation: 2..3 real Swarms with #[derive(NetworkBehaviour)]{request_response, gate}; seeded requests with per-request codec failure/stall plans, dials, closes, resets, gate denials, delayed/omitted responses, virtual time around the request timeout; exactly-once over the event history",
+  "every OutboundRequestId has exactly one Response/OutboundFailure, every delivered inbound request exactly one ResponseSent/InboundFailure after all timers expired; ids unique; responses match their request",
+  "both sides run the real behaviour and handler; the codec is the scripted part", "5/C45")
+BUILT["C46"] = ("E2", "exploration", "deterministic simulation: real identify::Behaviour in a real Swarm; scripted peers answer identify requests and send pushes with honest, mismatched-key, foreign-record, tampered-record and foreign-/p2p messages; every Received event is attributed to its message by a serial",
+  "reported key derives the connection's peer id; no listen address ending in a foreign /p2p; record addresses only from a valid record signed by the sender; mismatching messages never reported",
+  E2P_NOTE, "5/C46")
+BUILT["C50"] = ("E2", "exploration", "deterministic simulation: real AutoNAT v1 server in a real Swarm; scripted clients send dial requests with crafted address lists; oracle over the addresses the simulated transport is asked to dial and over the probe events",
+  "throttle limits 1..3 per peer / 1..4 global, periods 10..70 s; honest, spoofed, multi-IP, DNS, relay and foreign-/p2p addresses; dial-back addresses carry only the observed IP, no relay hop, end in the requester's id; one probe per peer; throttling windows",
+  E2P_NOTE, "5/C50")
+BUILT["C51"] = ("E2", "exploration", "deterministic simulation: real rendezvous server in a real Swarm; scripted clients register (signed records with generation numbers), unregister, discover with cookies; virtual-clock expiry; reference map folded from the answers",
+  "min_ttl 1..5, max_ttl 10..120, per-peer 1..3, total 2..6: TTL range, limits after every accepted REGISTER, refresh at the limit, discovery never returns expired/removed/superseded registrations, cookie chains return a registration at most once",
+  E2P_NOTE, "5/C51")
 NOT_YET = {}
 
 def main():
